@@ -15,19 +15,24 @@ Definition splice (l : list expr) (idx n : nat) (new : expr) : list expr :=
 
 Definition is_lit0 (e : expr) : bool := match e with Lit 0 => true | _ => false end.
 
-(* ---------- _merge_memzero ---------- *)
+(* ---------- _merge_memzero / _merge_load: one loop, two classifiers ----------
+   Both Python functions are the same loop: collect a run of consecutive nodes that write adjacent memory
+   ranges, replace the run by one copy node when it has more than one element.  The list is mutated while
+   it is enumerated (argz[idx] = new; del argz[idx+1 : idx+n]), which the model reproduces with an explicit
+   index.  A node is described by (dst, src, len); the run by its first dst/src, the total length so far, the
+   index of its first node and the number of nodes. *)
 Record mrun := { r_n : nat; r_dst : Z; r_src : Z; r_total : Z; r_idx : nat }.
 Definition run0 : mrun := {| r_n := 0; r_dst := 0; r_src := 0; r_total := 0; r_idx := 0 |}.
 
-(* classification of a node for _merge_memzero: Some (offset, length) if it zeroes memory *)
-Definition zeroing (e : expr) : option (Z * Z) :=
-  match e with
-  | Node "mstore" [Lit off; Lit 0] => Some (off, 32)
-  | Node "calldatacopy" [Lit off; Var "calldatasize"; Lit len] => Some (off, len)
-  | _ => None
-  end.
+Record mspec := {
+  ms_cls : expr -> option (Z * Z * Z);   (* (dst, src, len) of a mergeable node *)
+  ms_src : bool;                          (* the source offsets must be adjacent too (_merge_load) *)
+  ms_allow_overlap : bool;
+  ms_mk : Z -> Z -> Z -> expr             (* the merged node from (dst, src, total) *)
+}.
 
-Fixpoint mz_loop (fuel : nat) (l : list expr) (i : nat) (r : mrun) (changed : bool) : res (bool * list expr) :=
+Fixpoint g_loop (sp : mspec) (fuel : nat) (l : list expr) (i : nat) (r : mrun) (changed : bool)
+    : res (bool * list expr) :=
   match fuel with
   | O => Err OutOfFuel
   | S f =>
@@ -36,67 +41,70 @@ Fixpoint mz_loop (fuel : nat) (l : list expr) (i : nat) (r : mrun) (changed : bo
     | Some node =>
       let is_last := Nat.eqb i (List.length l - 1) in
       let '(r1, cont) :=
-        match zeroing node with
-        | Some (off, len) =>
-            let r' := if Nat.eqb (r_n r) 0 then {| r_n := 0; r_dst := off; r_src := 0; r_total := r_total r; r_idx := i |} else r in
-            if r_dst r' + r_total r' =? off then
-              ({| r_n := S (r_n r'); r_dst := r_dst r'; r_src := 0; r_total := r_total r' + len; r_idx := r_idx r' |},
-               negb is_last)
-            else (r', false)
-        | None => (r, false)
-        end in
-      if cont then mz_loop f l (S i) r1 changed
-      else
-        if Nat.ltb 1 (r_n r1) then
-          let new := Node "calldatacopy" [Lit (r_dst r1); Var "calldatasize"; Lit (r_total r1)] in
-          mz_loop f (splice l (r_idx r1) (r_n r1) new) (S i) run0 true
-        else mz_loop f l (S i) run0 changed
-    end
-  end.
-Definition merge_memzero (l : list expr) : res (bool * list expr) :=
-  mz_loop (S (List.length l)) l 0 run0 false.
-
-(* ---------- _merge_load ---------- *)
-Definition loading (LOAD : string) (e : expr) : option (Z * Z) :=
-  match e with
-  | Node "mstore" [Lit dst; Node ld [Lit src]] => if String.eqb ld LOAD then Some (dst, src) else None
-  | _ => None
-  end.
-Fixpoint ml_loop (LOAD COPY : string) (allow_overlap : bool) (fuel : nat) (l : list expr) (i : nat) (r : mrun)
-    (changed : bool) : res (bool * list expr) :=
-  match fuel with
-  | O => Err OutOfFuel
-  | S f =>
-    match nth_error l i with
-    | None => Ok (changed, l)
-    | Some node =>
-      let is_last := Nat.eqb i (List.length l - 1) in
-      let '(r1, cont) :=
-        match loading LOAD node with
-        | Some (dst, src) =>
-            let r' := if Nat.eqb (r_n r) 0 then {| r_n := 0; r_dst := dst; r_src := src; r_total := r_total r; r_idx := i |} else r in
+        match ms_cls sp node with
+        | Some (dst, src, len) =>
+            let r' := if Nat.eqb (r_n r) 0
+                      then {| r_n := 0; r_dst := dst; r_src := src; r_total := r_total r; r_idx := i |} else r in
             let has_overlap := (r_src r' <? r_dst r') && (r_dst r' <? src + 32) in
-            if (r_dst r' + r_total r' =? dst) && (r_src r' + r_total r' =? src) && (allow_overlap || negb has_overlap) then
-              ({| r_n := S (r_n r'); r_dst := r_dst r'; r_src := r_src r'; r_total := r_total r' + 32; r_idx := r_idx r' |},
+            if (r_dst r' + r_total r' =? dst)
+               && (negb (ms_src sp) || (r_src r' + r_total r' =? src))
+               && (ms_allow_overlap sp || negb has_overlap) then
+              ({| r_n := S (r_n r'); r_dst := r_dst r'; r_src := r_src r'; r_total := r_total r' + len; r_idx := r_idx r' |},
                negb is_last)
             else (r', false)
         | None => (r, false)
         end in
-      if cont then ml_loop LOAD COPY allow_overlap f l (S i) r1 changed
+      if cont then g_loop sp f l (S i) r1 changed
       else
         if Nat.ltb 1 (r_n r1) then
-          let new := Node COPY [Lit (r_dst r1); Lit (r_src r1); Lit (r_total r1)] in
-          ml_loop LOAD COPY allow_overlap f (splice l (r_idx r1) (r_n r1) new) (S i) run0 true
-        else ml_loop LOAD COPY allow_overlap f l (S i) run0 changed
+          (* IRnode.from_list asserts that the new literals are in range *)
+          if lit_okb (r_total r1) then
+            g_loop sp f (splice l (r_idx r1) (r_n r1) (ms_mk sp (r_dst r1) (r_src r1) (r_total r1))) (S i) run0 true
+          else Err AssertFail
+        else g_loop sp f l (S i) run0 changed
     end
   end.
-Definition merge_load (LOAD COPY : string) (allow_overlap : bool) (l : list expr) : res (bool * list expr) :=
-  ml_loop LOAD COPY allow_overlap (S (List.length l)) l 0 run0 false.
+
+(* The model declines (Err TypeErr) when a mergeable node has a negative literal offset or length: python adds
+   literals as unbounded ints, the EVM wraps them -- for such (front-end unreachable) inputs the merges are not
+   meaning preserving (see notes) and no claim is made. *)
+Definition node_safe (sp : mspec) (e : expr) : bool :=
+  match ms_cls sp e with Some (d, s, n) => (0 <=? d) && (0 <=? s) && (0 <=? n) | None => true end.
+Definition g_merge (sp : mspec) (l : list expr) : res (bool * list expr) :=
+  if forallb (node_safe sp) l then g_loop sp (S (List.length l)) l 0 run0 false else Err TypeErr.
+
+(* _merge_memzero: (mstore off 0) and (calldatacopy off calldatasize len) *)
+Definition zeroing (e : expr) : option (Z * Z * Z) :=
+  match e with
+  | Node op [Lit off; Lit z] =>
+      if String.eqb op "mstore" && (z =? 0) then Some (off, 0, 32) else None
+  | Node op [Lit off; Var v; Lit len] =>
+      if String.eqb op "calldatacopy" && String.eqb v "calldatasize" then Some (off, 0, len) else None
+  | _ => None
+  end.
+Definition sp_memzero : mspec :=
+  {| ms_cls := zeroing; ms_src := false; ms_allow_overlap := true;
+     ms_mk := fun d _ t => Node "calldatacopy" [Lit d; Var "calldatasize"; Lit t] |}.
+Definition merge_memzero := g_merge sp_memzero.
+
+(* _merge_load: (mstore dst (LOAD src)) *)
+Definition loading (LOAD : string) (e : expr) : option (Z * Z * Z) :=
+  match e with
+  | Node op [Lit dst; Node ld [Lit src]] =>
+      if String.eqb op "mstore" && String.eqb ld LOAD then Some (dst, src, 32) else None
+  | _ => None
+  end.
+Definition sp_load (LOAD COPY : string) (allow_overlap : bool) : mspec :=
+  {| ms_cls := loading LOAD; ms_src := true; ms_allow_overlap := allow_overlap;
+     ms_mk := fun d s t => Node COPY [Lit d; Lit s; Lit t] |}.
+Definition merge_load (LOAD COPY : string) (allow_overlap : bool) := g_merge (sp_load LOAD COPY allow_overlap).
 
 (* ---------- _rewrite_mstore_dload ---------- *)
 Definition rewrite_dload1 (e : expr) : bool * expr :=
   match e with
-  | Node "mstore" [dst; Node "dload" (src :: _)] => (true, Node "dloadbytes" [dst; src; Lit 32])
+  | Node op [dst; Node ld [src]] =>
+      if String.eqb op "mstore" && String.eqb ld "dload" then (true, Node "dloadbytes" [dst; src; Lit 32])
+      else (false, e)
   | _ => (false, e)
   end.
 Definition rewrite_mstore_dload (l : list expr) : bool * list expr :=
@@ -223,5 +231,6 @@ Definition show_opt (r : res expr) : string :=
   | Err Raised => "STATIC"
   | Err AssertFail => "ASSERT"
   | Err OutOfFuel => "FUEL"
+  | Err TypeErr => "DECLINED"
   | Err _ => "E"
   end.
